@@ -475,6 +475,7 @@ func cacheHistories(tier string, seed int64, withConfigs bool) []cacheHist {
 		}
 	}
 	frec(nil)
+	hs = append(hs, lifecycleHistories()...)
 	// random longer histories
 	n := 500
 	if tier == "thorough" {
@@ -533,6 +534,28 @@ func cacheHistories(tier string, seed int64, withConfigs bool) []cacheHist {
 	return hs
 }
 
+// lifecycleHistories: the cleanup goroutine's life — configuration calls made late (while a cleaner is running, after a stop,
+// between cached compilations), repeated stops, stop / restart cycles
+func lifecycleHistories() []cacheHist {
+	var hs []cacheHist
+	I, T := fmt.Sprintf("I%d", nsMs), fmt.Sprintf("T%d", nsHour)
+	for _, ops := range [][]string{
+		{"rc0", I, "rc1", "s", "rc0"},
+		{"rc0", "s", I, "rc0", "rc1", "s"},
+		{"rc0", T, "rc0", I, "rc1", "s", "rc0", "s"},
+		{"rc0", "rc1", "I5000000", "I7000000", "rc0", "s"},
+		{"rc0", I, T, "rc0", "s", "rc1", "rc0"},
+		{"rc0", T, I, "s", "s", "rc0"},
+		{"ru0", I, "rc0", "rc0", "s"},
+		{"s", "rc0", "s", "s", "rc1", "rc0", "s", "rc0", "s"},
+		{"rc0", "rc0", "s", "rc0", "rc0", "s", "rc1", "s"},
+		{"rc2", "s", "rc2", "rc3", "s", "rc0"},
+	} {
+		hs = append(hs, cacheHist{ops: ops})
+	}
+	return hs
+}
+
 func cfgOps(ttl int64) []string {
 	if ttl > 0 && ttl < nsHour {
 		return []string{"ru0"} // only "does not crash, result right" is predictable; see runCfgSmoke
@@ -542,7 +565,7 @@ func cfgOps(ttl int64) []string {
 
 func runCacheProp(prop string) runFn {
 	return func(res *Result, tier string, seed int64, replay string) {
-		res.Rule = "histories over {cached render of A / A' (one byte differs) / unparsable / invalid-attribute doc / the same behind blank lines / A with trailing whitespace / a document with mj-class, mj-attributes, inline style and an invalid attribute after valid ones, uncached render, advance TTL/2, advance TTL, stop}: exhaustive to length 4 (quick) or 5 (thorough); fast-sweep family (1 ms interval, tick after every step) exhaustive to length 3; seeded random histories up to length 25 (quick) / 125 (thorough); C14 adds the TTL×interval boundary matrix in both setter orders. Each history runs in a FRESH process (hx cachechild) and on the Lean Model (driver `cache`); per op: outcome vs uncached compilation, parser calls, cache size, cleaner registered, effective config, cleanup goroutines started/exited. Non-trivial = history with at least one cached compilation; distinct by op list"
+		res.Rule = "histories over {cached render of A / A' (one byte differs) / unparsable / invalid-attribute doc / the same behind blank lines / A with trailing whitespace / a document with mj-class, mj-attributes, inline style and an invalid attribute after valid ones, uncached render, advance TTL/2, advance TTL, stop}: exhaustive to length 4 (quick) or 5 (thorough); fast-sweep family (1 ms interval, tick after every step) exhaustive to length 3; seeded random histories up to length 25 (quick) / 125 (thorough); configuration calls made late (while a cleaner runs, after a stop); C14 adds the TTL×interval boundary matrix in both setter orders. Each history runs in a FRESH process (hx cachechild) and on the Lean Model (driver `cache`); per op: outcome vs uncached compilation, parser calls, cache size, cleaner registered, effective config, cleanup goroutines started/exited. Non-trivial = history with at least one cached compilation; distinct by op list"
 		drv, err := startDriverPool(8)
 		if err != nil {
 			res.Disagree(Violation{Sig: "driver-missing", Kind: "history", What: err.Error()})
